@@ -21,6 +21,7 @@ def first_paragraph(notes):
     paras = [p.strip() for p in re.split(r"\n\s*\n", txt) if p.strip() and not p.strip().startswith("#")]
     return paras[0][:900] if paras else ""
 
+SUMMARY = json.load(open("/verif/tools/seed_summaries.json"))
 rows = []
 os.makedirs(OUT, exist_ok=True)
 for pid in IDS:
@@ -53,7 +54,9 @@ for pid in IDS:
         meta = {
             "property": pid,
             "origin": "written by a fresh sub-agent that was given only the text of the property and its own scratch git worktree of /repo (nothing from /verif)",
-            "what_it_changes_and_what_it_needs_to_manifest": first_paragraph(f"{src}/notes.md"),
+            "what_it_changes": SUMMARY.get(name, ["", ""])[0],
+            "what_it_needs_in_order_to_manifest": SUMMARY.get(name, ["", ""])[1],
+            "details": "notes.md (written by the sub-agent)",
             "confirmed_by_me": {
                 "how": "tools/verify_seed.sh in a fresh scratch worktree: demo (as tests/demo.rs) without the patch; git apply; cargo test --offline --lib --no-fail-fast; demo with the patch",
                 "suite_with_patch": "142 passed, 1 failed (tests::general_test::date_tests, which fails on the unchanged tree too)",
@@ -69,7 +72,7 @@ for pid in IDS:
         def verdict(d):
             if not d: return "-"
             return "; ".join(f"{c}: {'CAUGHT' if r['exit']==1 else ('harness error' if r['exit']==2 else 'missed')}" + (f" [{r['first_keys'][0]}]" if r['first_keys'] else "") for c, r in d.items())
-        rows.append((name, meta["what_it_changes_and_what_it_needs_to_manifest"][:220].replace("\n", " "), verdict(summarize(det1)), verdict(summarize(det2))))
+        rows.append((name, meta["what_it_changes"] + " - NEEDS: " + meta["what_it_needs_in_order_to_manifest"], verdict(summarize(det1)), verdict(summarize(det2))))
 
 with open(f"{OUT}/RESULTS.md", "w") as f:
     f.write("# Seeded changes and which checks catch them\n\n")
